@@ -213,7 +213,7 @@ func init() {
 					if err != nil {
 						return fw.Inconcl("witness: " + err.Error())
 					}
-					if err := ccs.IsSolved(w, gadget.CommitOverrides(ccs)...); err != nil {
+					if err := ccs.IsSolved(w, gadget.SolveOpts(ccs)...); err != nil {
 						return fw.Violate("compiled_system_rejects_valid_proof:"+c.Str("sys")+":"+c.Str("wrapper"), fmt.Sprintf("case %s (%d constraints): %v", c.ID, ccs.GetNbConstraints(), trunc(err.Error(), 200)))
 					}
 					o.Events += ccs.GetNbConstraints()
